@@ -172,7 +172,13 @@ example : parseText asciiCC ⟨true, true⟩ ⟨defaultWs, true⟩
 /-- `skipws=False`: nothing is skipped -/
 example : parseText asciiCC ⟨true, false⟩ ⟨[], false⟩ (.seq (.lit ['a', 'b']) .ident) ['a', 'b', ' ', 'x'] = none := by
   decide +kernel
-/-- separator repetition `ID+['and']` under autokwd -/
+/-- separator repetition `ID+['and']` under autokwd; a separator whose element fails stays in the parse tree
+(`x and .`: the position returns to before `and`) -/
+example : parseText asciiCC ⟨true, false⟩ ⟨defaultWs, false⟩
+    (.seq (.sepPlus .ident (.lit ['a', 'n', 'd'])) (.seq (.lit ['a', 'n', 'd']) (.lit ['.'])))
+    ['x', ' ', 'a', 'n', 'd', ' ', '.'] =
+    some [(0, ['x'], ['x']), (2, ['a', 'n', 'd'], ['a', 'n', 'd']), (2, ['a', 'n', 'd'], ['a', 'n', 'd']),
+      (6, ['.'], ['.'])] := by decide +kernel
 example : parseText asciiCC ⟨true, false⟩ ⟨defaultWs, false⟩ (.sepPlus .ident (.lit ['a', 'n', 'd']))
     ['x', ' ', 'a', 'n', 'd', ' ', 'y'] =
     some [(0, ['x'], ['x']), (2, ['a', 'n', 'd'], ['a', 'n', 'd']), (6, ['y'], ['y'])] := by decide +kernel
